@@ -349,6 +349,13 @@ class ScriptApp:
                 err = await self._send(inst, send, op[1])
                 if err is not None:
                     raise inst.last_send_exc
+            elif kind == "send_finally":  # try: await send(msg) / finally: await sleep(dt)  (slow unwinding)
+                try:
+                    err = await self._send(inst, send, op[1])
+                    if err is not None:
+                        raise inst.last_send_exc
+                finally:
+                    await w.sleep(op[2])
             elif kind == "gate":
                 await w.wait_gate(inst, op[1])
             elif kind == "sleep":
